@@ -6,7 +6,7 @@ S=/tmp/cov.$$
 T=$(dirname $(rustc +nightly --print target-libdir))/bin
 mkdir -p $S/prof
 cp -r /verif/harness $S/harness && rm -rf $S/harness/target
-(cd $S/harness && CARGO_NET_OFFLINE=true RUSTFLAGS="-C instrument-coverage --cfg crustabri_verif" CARGO_TARGET_DIR=$S/target cargo +nightly build --release --offline >/dev/null 2>&1)
+(cd $S/harness && LLVM_PROFILE_FILE=$S/build-%p-%m.profraw CARGO_NET_OFFLINE=true RUSTFLAGS="-C instrument-coverage --cfg crustabri_verif" CARGO_TARGET_DIR=$S/target cargo +nightly build --release --offline >/dev/null 2>&1)
 export VERIF_VH=$S/target/release/vh LLVM_PROFILE_FILE=$S/prof/p-%p-%m.profraw
 cd /verif
 for p in C01 C02 C03 C04 C05 C06 C07 C08 C09 C10 C11 C12 C13 C14 C15 C16 C17 C18 C19; do ./check $p 2>&1 | tail -1; done
